@@ -568,6 +568,19 @@ func (l *lockstep) run(maxCycles uint64) {
 				}
 			}
 		}
+		if l.ref.Kind == "halt-wake" && l.k == 1 && !l.ref.NoWakeCycle {
+			// The statement does not say whether leaving HALT with the master enable clear costs a machine
+			// cycle of its own. The reference spends one (DMG). If the real CPU is not sitting unchanged at
+			// the instruction after the HALT now, it resumed without such a cycle: the reference follows
+			// (for the rest of the run) and executes the first cycle of that instruction instead.
+			if r := m.CPU.VerifGetRegs(); !(m.CPU.VerifAtBoundary() && r.PC == l.pre.PC) && !m.CPU.VerifHalted() {
+				l.ref.NoWakeCycle = true
+				l.ref.Halted = true
+				l.ref.Cycle()
+				l.res.Probe("wake_no_dispatch")
+				l.res.Probe("wake_without_a_cycle_of_its_own")
+			}
+		}
 		l.ppu.Tick()
 		if l.ppu.On && l.ppu.Mode() == 2 {
 			l.mode2Seen = true
